@@ -25,6 +25,9 @@ RULE = ("schemas: seeded gen/schema.py descriptions built from SDL and re-built 
         "and enum values with and without reasons, descriptions, custom directives with arguments, mutation/subscription roots) "
         "+ input fields with python_name != name (code-built, and derived by CamelCaseSchemaTransform from snake-case fields; defaults keyed by Python names), custom-scalar defaults that look numeric, every directive location the parser accepts + the same descriptions built from instances of SUBCLASSES of every library type class (incl. wrappers, RegexType, UUID) and compared with the plain-class twin + corpus; executed with BlockingExecutor and Executor on BlockingRuntime (all), AsyncIORuntime (private loop) and "
         "ThreadPoolRuntime(2) (subset); includeDeprecated true/false/omitted; introspection enabled/disabled; __type(name:) of names in / not in the schema; "
+        "DETERMINISTIC class eq-colliding: defaults / enum internal values 1, True, 1.0, 0, False, 0.0 (== and hash collide, types differ) on ONE JSON-like "
+        "custom scalar and ONE enum, as arguments / input fields / directive arguments of two schemas sharing the type objects in opposite orders, "
+        "introspected one after the other in one process, type-strict round-trip; "
         "HISTORIES introspect -> in-place change of the live schema (hide implementer, drop union member, replace types, rename enum values, "
         "set / delete defaults) -> introspect again on Executor and BlockingExecutor, + ctx.later repeats on the schema objects kept alive. "
         "non-trivial = distinct (schema, aspect) with at least one user type beyond Query")
@@ -1436,8 +1439,103 @@ def oracle_numeric_strings(ctx):
                          {"check": "numeric-strings", "value": x, "where": where, "reported": texts.get(where)})
 
 
+EQ_COLLIDING = [("i1", 1), ("t", True), ("f1", 1.0), ("i0", 0), ("fa", False), ("f0", 0.0)]
+
+
+def _typed_json_scalar(name):
+    """a JSON-like custom scalar that keeps the Python type of numbers and booleans in both directions"""
+    from py_gql.lang import ast as _ast
+    from py_gql.schema import ScalarType
+
+    def parse_literal(node, variables=None):
+        if isinstance(node, _ast.BooleanValue):
+            return bool(node.value)
+        if isinstance(node, _ast.IntValue):
+            return int(node.value)
+        if isinstance(node, _ast.FloatValue):
+            return float(node.value)
+        if isinstance(node, _ast.StringValue):
+            return str(node.value)
+        if isinstance(node, _ast.NullValue):
+            return None
+        raise TypeError("unsupported literal")
+    return ScalarType(name, serialize=lambda v: v, parse=lambda v: v, parse_literal=parse_literal)
+
+
+def _strict_same(a, b):
+    """TYPE-strict equality: 1, True and 1.0 are three different declared defaults"""
+    return type(a) is type(b) and a == b
+
+
+def oracle_eq_colliding_defaults(ctx):
+    """DETERMINISTIC class `eq-colliding`: declared defaults / enum internal values that collide under Python `==` and `hash`
+    but differ in type (1, True, 1.0 / 0, False, 0.0), SEVERAL of them on ONE type object (a JSON-like custom scalar; an enum
+    whose members are backed by them), as field arguments, input fields and directive arguments; two schemas sharing the type
+    objects declare them in opposite orders and are introspected one after the other in this process, then the first again.
+    Oracle: every reported defaultValue parses back (parse_value + value_from_ast) to the declared default, TYPE-strictly."""
+    from py_gql.lang import parse_value
+    from py_gql.schema import Argument, Directive, EnumType, Field, InputField, InputObjectType, Int, ObjectType, Schema
+    from py_gql.utilities import value_from_ast
+    J = _typed_json_scalar("JSONish")
+    E = EnumType("Backed", [("ONE", 1), ("YES", True), ("FONE", 1.0), ("ZERO", 0), ("NO", False), ("FZERO", 0.0)])
+
+    def mk(order, tag):
+        vals = list(EQ_COLLIDING) if order == "fwd" else list(reversed(EQ_COLLIDING))
+        args = [Argument("j_" + n, J, default_value=v) for n, v in vals] + [Argument("e_" + n, E, default_value=v) for n, v in vals]
+        inp = InputObjectType("In" + tag, [InputField("j_" + n, J, default_value=v) for n, v in vals]
+                              + [InputField("e_" + n, E, default_value=v) for n, v in vals])
+        d = Directive("d" + tag, ["FIELD"], args=[Argument("j_" + n, J, default_value=v) for n, v in vals[:3]]
+                      + [Argument("e_" + n, E, default_value=v) for n, v in vals[3:]])
+        q = ObjectType("Query", [Field("f", Int, args=args), Field("g", Int, args=[Argument("i", inp)])])
+        sch = Schema(q, directives=[d])
+        sch.validate()
+        return sch
+    try:
+        schemas = [("fwd", mk("fwd", "F")), ("rev", mk("rev", "R"))]
+    except Exception as e:  # noqa
+        ctx.stat("eq-colliding:not-buildable-" + type(e).__name__)
+        return
+    for round_, (order, schema) in enumerate(schemas + schemas[:1]):
+        for cfg in ("blocking", "generic"):
+            ctx.count()
+            st, r = L.execute(schema, std_query(), cfg)
+            if st != "ok" or r.get("errors"):
+                ctx.fail("introspection-raises:%s" % (r if st != "ok" else "errors"), "the standard introspection query fails",
+                         {"check": "eq-colliding", "order": order, "config": cfg})
+                continue
+            dec = L.decode_introspection(r["data"])
+            texts = {}
+            for t in dec["types"]:
+                for f in t["fields"]:
+                    for a in f["args"]:
+                        texts["%s.%s(%s)" % (t["name"], f["name"], a["name"])] = a["default_text"]
+                for a in t["input_fields"]:
+                    texts["%s.%s" % (t["name"], a["name"])] = a["default_text"]
+            for d in dec["directives"]:
+                for a in d["args"]:
+                    texts["@%s(%s)" % (d["name"], a["name"])] = a["default_text"]
+            for where, iv in L.iter_defaults(schema):
+                if where.startswith("__") or not iv.has_default_value or iv.type not in (J, E):
+                    continue
+                ctx.count()
+                ctx.nontrivial(("eq-colliding", order, round_, cfg, where))
+                text = texts.get(where)
+                try:
+                    back = value_from_ast(parse_value(text), iv.type)
+                    ok = _strict_same(back, iv.default_value)
+                except Exception as e:  # noqa
+                    back, ok = "raises %s" % type(e).__name__, False
+                if not ok:
+                    kind = "enum" if iv.type is E else "custom-scalar"
+                    ctx.fail("default-denotes-other-value:eq-colliding:%s:%s-reported-as-%s" % (kind, type(iv.default_value).__name__, type(back).__name__),
+                             "declared default %r of %s is reported as %r, which parses back to %r (a different value: == but not the same type)"
+                             % (iv.default_value, where, text, back),
+                             {"check": "eq-colliding", "order": order, "round": round_, "config": cfg, "where": where, "reported": text})
+
+
 def run(ctx):
     try:
+        oracle_eq_colliding_defaults(ctx)
         oracle_empty_reason(ctx)
         oracle_null_reason(ctx)
         oracle_hunt3(ctx)
@@ -1488,6 +1586,10 @@ def replay(ctx, data):
         import sys
         sub = Ctx2(ctx)
         C15_history.one_history(sub, sys.modules[__name__], inp["case"], inp["kind"], inp["hseed"])
+        return not any(f["signature"] == data.get("signature") for f in sub.found)
+    if inp.get("check") == "eq-colliding":
+        sub = Ctx2(ctx)
+        oracle_eq_colliding_defaults(sub)
         return not any(f["signature"] == data.get("signature") for f in sub.found)
     if inp.get("check") in ("directive-locations", "numeric-strings", "null-reason", "inexpressible-defaults", "meta-below-non-query", "hunt3", "hunt3-findings"):
         sub = Ctx2(ctx)
